@@ -249,6 +249,11 @@ where
         if !vc.is_valid(&pd.start_states[0]) {
             return Err(PlanningError::InvalidStartState);
         }
+        // Likewise the root of the goal tree, sampled from the goal region in `setup`, is the last
+        // state of every path found by connecting the two trees.
+        if !vc.is_valid(&self.goal_tree[0].state) {
+            return Err(PlanningError::NoSolutionFound);
+        }
 
         let mut rng = self
             .rng
